@@ -88,21 +88,22 @@ Definition nonneg (w : list Q) : list Q := map (fun v => if qle 0 v then v else 
 (* kernel : D x num_keypoints x (units / sparsity)  (leading axis of size 1 dropped);
    scaling : [s] for 'fixed' / 'learned_shared', D values for 'learned_per_input'.
    x : the example, of width D, or of width 1 (broadcast against the kernel). *)
+Definition layer_cells (sg : Q -> Q) (a : act) (kernel : list (list (list Q))) (scaling x : list Q) (uf : nat)
+    : list (list Q) :=
+  map (fun i =>
+    map (fun v =>
+      basis sg a
+        (map (fun k => bsel 0 i scaling * (bsel 0 i x - nth v (nth k (nth i kernel []) []) 0))
+           (seq 0 (length (nth i kernel [])))))
+      (seq 0 uf))
+    (seq 0 (length kernel)).
 Definition cdf_layer (sg ex lg : Q -> Q) (a : act) (r : red) (units sf : nat)
     (kernel : list (list (list Q))) (scaling : list Q) (x : list Q) : option (list (list Q)) :=
   let D := length kernel in
   let W := length x in
   if negb (act_ok a && red_ok r && (0 <? sf)%nat && (D mod sf =? 0)%nat && (units mod sf =? 0)%nat
            && ((W =? D) || (W =? 1))%nat) then None else
-  let uf := (units / sf)%nat in
-  let cells :=
-    map (fun i =>
-      map (fun v =>
-        basis sg a
-          (map (fun k => bsel 0 i scaling * (bsel 0 i x - nth v (nth k (nth i kernel []) []) 0))
-             (seq 0 (length (nth i kernel [])))))
-        (seq 0 uf))
-      (seq 0 D) in
+  let cells := layer_cells sg a kernel scaling x (units / sf) in
   if (sf =? 1)%nat then Some (reduce ex lg r eps_layer W units cells)
   else if (W =? D)%nat then Some (reduce ex lg r eps_layer (W / sf) units (reshape2 (W / sf) units cells))
   else None.
